@@ -51,11 +51,12 @@ template <typename C> static std::string text_of(C const& c)
 
 // integrand shapes
 // s_gap (not part of the shape loops): ordinary, except that the second iteration of the run yields zeros only
-enum shape { s_ordinary = 0, s_zero, s_const, s_zero_mean, s_nonfinite, s_negative, s_count, s_gap = s_count, s_gap0 };
+enum shape { s_ordinary = 0, s_zero, s_const, s_zero_mean, s_nonfinite, s_negative, s_count, s_gap = s_count, s_gap0, s_cancel0 };
+static thread_local long alt_calls = 0; // evaluations of this rank in the current run
 static thread_local int iter_no = 0; // callbacks seen by this rank in the current run
 static char const* shape_name(int s)
 {
-    static char const* n[] = {"ordinary", "zero", "const", "zero_mean", "nonfinite", "negative", "gap", "gap0"};
+    static char const* n[] = {"ordinary", "zero", "const", "zero_mean", "nonfinite", "negative", "gap", "gap0", "cancel0"};
     return n[s];
 }
 template <typename T> static T shape_value(int s, T x)
@@ -65,6 +66,8 @@ template <typename T> static T shape_value(int s, T x)
     case s_zero: return T();
     case s_gap: return iter_no == 1 ? T() : x * x + T(0.1);
     case s_gap0: return iter_no == 0 ? T() : x * x + T(0.1);   // the first iteration yields zeros only
+    // the values of the first iteration cancel exactly (estimate 0 with a small error): a result like any other
+    case s_cancel0: return iter_no == 0 ? (alt_calls++ % 2 ? T(-0.125) : T(0.125)) : x * x + T(0.1);
     case s_const: return T(2);
     case s_zero_mean: return x < T(0.5) ? T(1) : T(-1);
     case s_nonfinite: return std::numeric_limits<T>::quiet_NaN();
@@ -272,7 +275,7 @@ static void c12_run(rng& g, int shp, int variant, int world, bool builtin, doubl
     if (world == 0)
     {
         clog_.on = true; clog_.rank = 0;
-        iter_no = 0;
+        iter_no = 0; alt_calls = 0;
         C r = start;
         int count = 0;
         if (builtin) r = K::run(shp, variant, start, plan, observed_builtin<T, C>{hep::callback<C>(m, file, T(target)), T(target), 0});
@@ -364,6 +367,10 @@ template <typename T> static void c12_family(rng& g, bool thorough)
         c12_run<plain_k<T>, T>(g, s_gap0, 0, world == 1 ? 0 : world, true, 0.04, 0, false, (int) g.below(4));
         if (world == 2) c12_run<vegas_k<T>, T>(g, s_gap0, 0, world, true, 0.04, 0, false, 0);
     }
+    // first result 0 +- 0.009 (200 values +-1/8 that cancel), then 0.43 +- 0.02 per iteration: the combination is 0.07 +- 0.008 (relative
+    // error 0.12) after two and 0.12 +- 0.008 (0.065) after three iterations - a target of 0.085 is reached at the third callback
+    c12_run<plain_k<T>, T>(g, s_cancel0, 0, 0, true, 0.085, 0, false, (int) g.below(4));
+    c12_run<vegas_k<T>, T>(g, s_cancel0, 0, 0, true, 0.085, 0, false, 0);
     // resumed from a checkpoint whose two results (200 calls each, relative error about 0.05 each) count: together with the first new
     // iteration the combination is at about 0.03 - a target of 0.04 is reached at the first callback after the resumption
     c12_run<plain_k<T>, T>(g, s_ordinary, 0, 0, true, 0.04, 0, true, (int) g.below(4), 200);
@@ -409,7 +416,7 @@ template <typename C> struct recording_mpi_cb
 };
 
 template <typename K, typename T>
-static void c20_run(rng& g, int shp, int variant, int world, double target, bool sparse = false)
+static void c20_run(rng& g, int shp, int variant, int world, double target, bool sparse = false, bool badfile = false)
 {
     typedef typename K::chk C;
     std::vector<std::size_t> plan{60, 80, 60, 70};
@@ -418,6 +425,8 @@ static void c20_run(rng& g, int shp, int variant, int world, double target, bool
     for (int mode = 0; mode != 4; ++mode)
     {
         std::string file = scratch + "/c20_" + std::to_string(mode) + ".chk";
+        // a name in a directory that does not exist: the checkpoint cannot be written, the run is not affected
+        if (badfile) file = scratch + "/no_such_directory/c20.chk";
         std::remove(file.c_str());
         std::vector<long long> texts, rets, facts;
         std::string status = "ok";
@@ -478,7 +487,7 @@ static void c20_run(rng& g, int shp, int variant, int world, double target, bool
         }
         ev("Lane").i("run", id).i("mode", mode).a("facts", facts).a("pIters", printed_iters).a("pN", printed_n).a("pNnf", printed_nnf).s("kind", K::name()).s("T", type_name<T>::get()).s("shape", shape_name(shp)).i("variant", variant)
             .i("world", world).i("targetPos", target > 0 ? 1 : 0).a("texts", texts).a("rets", rets).i("final", final_text).s("status", status)
-            .i("printed0", printed0).i("printedOther", printed_other).i("fileText", file_text).emit();
+            .i("printed0", printed0).i("printedOther", printed_other).i("fileText", file_text).i("badfile", badfile ? 1 : 0).emit();
     }
 }
 
@@ -493,6 +502,8 @@ template <typename T> static void c20_family(rng& g, bool thorough)
     c20_run<vegas_k<T>, T>(g, s_ordinary, 0, 2, 0.0, true);
     c20_run<mc_k<T>, T>(g, s_ordinary, 2, 0, 0.0, true);
     c20_run<plain_k<T>, T>(g, s_zero, 0, 3, 0.0, true);
+    c20_run<plain_k<T>, T>(g, s_ordinary, 0, 0, 0.0, false, true);
+    c20_run<vegas_k<T>, T>(g, s_ordinary, 0, 2, 0.05, false, true);
     // multi channel: every (channels, pattern) variant, some with non-finite / zero integrands, serial and MPI
     for (int variant = 0; variant != 40; ++variant)
     {
